@@ -7,7 +7,9 @@ import (
 	"encoding/hex"
 	"fmt"
 	"io"
+	"os"
 	"os/exec"
+	"path/filepath"
 	"strconv"
 	"strings"
 )
@@ -25,7 +27,7 @@ type Pool struct{ ch chan *proc }
 func Start(n int) (*Pool, error) {
 	p := &Pool{ch: make(chan *proc, n)}
 	for i := 0; i < n; i++ {
-		cmd := exec.Command("python3", "/verif/oracles/inflate.py", "serve")
+		cmd := exec.Command("python3", filepath.Join(home(), "oracles", "inflate.py"), "serve")
 		in, err := cmd.StdinPipe()
 		if err != nil {
 			return nil, err
@@ -119,4 +121,12 @@ func (p *Pool) Deflate(level, strategy, memLevel, final int, chunks []Chunk) ([]
 		return nil, fmt.Errorf("oracle: %.200s", resp)
 	}
 	return unhex(f[1]), nil
+}
+
+// home is /verif, or the snapshot directory a `vp run` works in (VERIF_HOME, set by bin/check).
+func home() string {
+	if d := os.Getenv("VERIF_HOME"); d != "" {
+		return d
+	}
+	return "/verif"
 }
